@@ -39,6 +39,7 @@ def rand_string_target(rng):
 def cases(ctx):
     q = ctx.tier == 'quick'
     n = 2500 if q else 40000
+    ctx.new_phase()
     for i in range(n):
         if not ctx.time_left():
             break
